@@ -34,6 +34,7 @@ type c16Case struct {
 	Alert      bool        `json:"alerting_rule"`
 	Metrics    []c16Metric `json:"metrics"`
 	Producer   string      `json:"recording_rule_for,omitempty"` // another rule of the checked set records this metric
+	AlertNamed string      `json:"alert_named_like_metric,omitempty"` // an ALERTING rule of the checked set carries a metric's name: it produces nothing
 	Comment    string      `json:"comment,omitempty"`
 	Ignore     string      `json:"ignore_metrics,omitempty"`
 	NoUptime   bool        `json:"uptime_metric_missing"`
@@ -98,6 +99,9 @@ func c16Eval(r *hx.Run, cs c16Case) {
 	}
 	if cs.Producer != "" {
 		fmt.Fprintf(&sb, "  - record: %s\n    expr: sum(up)\n", cs.Producer)
+	}
+	if cs.AlertNamed != "" {
+		fmt.Fprintf(&sb, "  - alert: %s\n    expr: up == 0\n", cs.AlertNamed)
 	}
 	entries, perr := pipe.Entries("r.yml", []byte(sb.String()), pipe.Options{Strict: true})
 	if perr != "" || len(entries) == 0 || entries[0].Rule.Expr().SyntaxError != nil {
@@ -282,6 +286,9 @@ func runC16(r *hx.Run, replay string) {
 			cs.Expr = sel() + " unless " + sel() + " > 0"
 		default:
 			cs.Expr = "(" + sel() + " or vector(0)) + on() group_left() " + sel()
+		}
+		if rr.Intn(6) == 0 {
+			cs.AlertNamed = hx.Pick(rr, names)
 		}
 		switch rr.Intn(8) {
 		case 0:
